@@ -569,6 +569,18 @@ pub fn main(args: &Args) -> i32 {
     if lib.is_none() {
         report.note("libdbus not loadable: refnames audit skipped in this quick run");
     }
+    // The GUID part runs in the zb crate (the Guid type lives in zbus); the driver runs it first
+    // and hands its part over for merging.
+    match std::env::var("C10_GUID_PART").ok().and_then(|p| std::fs::read_to_string(p).ok()) {
+        Some(text) => match serde_json::from_str::<serde_json::Value>(&text) {
+            Ok(part) => {
+                report.set("guid_part_evaluations", part["evaluations"].clone());
+                report.import_part(&part);
+            }
+            Err(e) => vcommon::machinery_failure(&format!("C10: bad GUID part: {e}")),
+        },
+        None => vcommon::machinery_failure("C10: the GUID part (zb C10G) was not provided; run through ./check"),
+    }
     report.finish(
         "every string of length <= max_len over {a,Z,0,_,-,.,:,/,é,space} plus 254..257/1000-byte boundary strings, x 8 validated types x every construction route; non-trivial = (type,string) pairs the reference accepts (PropertyName excluded: it accepts nearly everything) plus all boundary pairs",
         true,
@@ -578,7 +590,8 @@ pub fn main(args: &Args) -> i32 {
 fn replay(path: &str) -> i32 {
     let v = vcommon::load_replay(path);
     if v["replay"]["kind"].as_str() == Some("Guid") {
-        vcommon::machinery_failure("C10 replay: GUID cases are replayed by the zb crate (engines/zb/src/c10guid.rs, `c10guid::replay`)");
+        // handled by the driver: `./check C10 --replay` routes GUID cases to `zb C10G --replay`
+        vcommon::machinery_failure("C10 replay: GUID cases are replayed by `zb C10G --replay <path>`");
     }
     let kind = v["replay"]["kind"].as_str().and_then(Kind::from_name);
     let s = v["replay"]["string"].as_str();
